@@ -129,9 +129,15 @@ class Summaries:
             so = sort_of(ty)
             if so[0] in ("field", "arkfp"):
                 f, val, raw = K.felt(v, so[1])
-                if raw >= K.MODULI[f]:
-                    return mk("felem_raw", f, raw)
-                return felem(f, val)
+                e = mk("felem_raw", f, raw) if raw >= K.MODULI[f] else felem(f, val)
+                if so[0] == "field" and not self.abstract_fields:
+                    # deep mode: wrapper values are structured  wrapper{0: backend value}
+                    t = strip_ref(strip_lt(ty))
+                    if "::u32::" in t:
+                        me = "fields::%s::u32::fiat::F%sMontgomeryDomainFieldElement" % (f, f[1])
+                        return mk("struct", t, ("0",), mk("struct", me, ("0",), mk("mont", e)))
+                    return mk("struct", t, ("0",), e)
+                return e
             if so[0] == "teproj":
                 fs = v["fields"]
                 return teproj(*[self.value_to_term(fs[k]) for k in ("x", "y", "t", "z")])
@@ -248,6 +254,9 @@ class Summaries:
         r = self.ark_summary(ctx, tp, key, name, a, s0)
         if r is not NotImplemented:
             return r
+        r = self.fiat_summary(ctx, tp, key, name, a, s0)
+        if r is not NotImplemented:
+            return r
         r = self.r1cs_summary(ctx, tp, key, name, a, s0)
         return r
 
@@ -305,6 +314,11 @@ class Summaries:
         if tp == "core::iter::Iterator::enumerate":
             return mk("enumerate", a[0])
         if tp == "core::iter::Iterator::map":
+            # interpret the closure once on a generic item of the sequence (its construction sites and effects are facts)
+            item = mk("item_of", a[0])
+            r = I.apply_fn(a[1], [item], ctx.e, ctx.env, ctx.fr)
+            if r is not None and a[1].op == "closure":
+                return mk("seq_map_t", item, r[0], a[0])
             return mk("seq_map", a[1], a[0])
         if tp == "core::iter::once":
             return mk("array", a[0])
@@ -510,6 +524,16 @@ class Summaries:
         return r[0]
 
     def eq_dispatch(self, ctx, x, y, ty):
+        """`&A == &B` (blanket impl): dispatch to A's own PartialEq when that is an impl of this crate"""
+        I = ctx.I
+        t = strip_ref(strip_lt(ty))
+        p = I.prog.find_impl_item("core::cmp::PartialEq", t, "eq") or I.prog.find_impl_item("core::cmp::PartialEq<%s>" % t, t, "eq")
+        if p is not None and I.prog.body(p) is not None and not (self.abstract_fields and sort_of(t)[0] == "field"):
+            c2 = {"path": "core::cmp::PartialEq::eq", "args": [t, t], "trait": "core::cmp::PartialEq", "inst": {"path": p, "local": True, "args": []}}
+            r = I.do_call(c2, [x, y], [None, None], ctx.e, ctx.env, ctx.fr)
+            if r is not None:
+                ctx.env = r[1]
+                return r[0]
         return eq(x, y)
 
     def lazy_value(self, ctx, x):
@@ -747,6 +771,77 @@ class Summaries:
         if tp == "ark_ff::BigInteger::mul2":
             ctx.write(0, mk("bigint_mul2", a[0]))
             return mk("carry")
+        return NotImplemented
+
+    # ---- fiat-crypto generated primitives (bodies are not analysed: Coq-proved by their generator) ------
+    def fiat_summary(self, ctx, tp, key, name, a, s0):
+        m = re.match(r"^fields::(fq|fr|fp)::u32::fiat::(fq|fr|fp)_(\w+)$", key)
+        if not m:
+            return NotImplemented
+        mod, pref, fn = m.groups()
+        ctx.effect("fiat_call", mk("strlit", mod), mk("strlit", pref), mk("strlit", fn))
+        ME = "fields::%s::u32::fiat::%sMontgomeryDomainFieldElement" % (mod, pref.capitalize())
+        NM = "fields::%s::u32::fiat::%sNonMontgomeryDomainFieldElement" % (mod, pref.capitalize())
+
+        def elem_m(x):      # element denoted by a Montgomery-domain struct value
+            raw = field(x, "0")
+            if raw.op == "mont":
+                return raw.args[0]
+            return mk("unmont", raw)
+
+        def elem_n(x):
+            raw = field(x, "0")
+            if raw.op == "canon32":
+                return raw.args[0]
+            return mk("of_canon_limbs32", raw)
+
+        def me(e):
+            return mk("struct", ME, ("0",), mk("mont", e))
+
+        def nm(e):
+            return mk("struct", NM, ("0",), mk("canon32", e))
+        if fn in ("add", "sub", "mul"):
+            op = {"add": r_add, "sub": r_sub, "mul": r_mul}[fn]
+            ctx.write(0, me(op(elem_m(a[1]), elem_m(a[2]))))
+            return UNIT
+        if fn == "square":
+            ctx.write(0, me(r_mul(elem_m(a[1]), elem_m(a[1]))))
+            return UNIT
+        if fn == "opp":
+            ctx.write(0, me(r_neg(elem_m(a[1]))))
+            return UNIT
+        if fn == "to_montgomery":
+            ctx.write(0, me(elem_n(a[1])))
+            return UNIT
+        if fn == "from_montgomery":
+            ctx.write(0, nm(elem_m(a[1])))
+            return UNIT
+        if fn == "from_bytes":
+            # raw little-endian limbs of the byte string (any integer < 2^(8*len): canonical domain, possibly >= p)
+            ctx.write(0, mk("canon32", mk("from_le_bytes_mod_order", mod, a[1])))
+            return UNIT
+        if fn == "to_bytes":
+            raw = a[1]
+            ctx.write(0, mk("canon_bytes", raw.args[0]) if raw.op == "canon32" else mk("bytes_of_limbs32", raw))
+            return UNIT
+        if fn == "nonzero":
+            raw = a[1]
+            ctx.write(0, ite(eq(raw.args[0], felem(mod, 0)), lit(0), mk("nonzero_word", raw)) if raw.op == "mont" else mk("nonzero_word", raw))
+            return UNIT
+        if fn == "selectznz":
+            ctx.write(0, ite(ne(a[1], lit(0)), a[3], a[2]))
+            return UNIT
+        if fn == "set_one":
+            ctx.write(0, me(felem(mod, 1)))
+            return UNIT
+        if fn in ("msat", "divstep_precomp"):
+            ctx.write(0, mk("fiat_" + fn, mod))
+            return UNIT
+        if fn == "divstep":
+            v = mk("fiat_divstep", mod, *a[5:])
+            for i in range(5):
+                ctx.write(i, mk("out", v, i))
+            return UNIT
         return NotImplemented
 
     # ---- the crate's own field API, abstracted ------------------------------------------------
